@@ -351,7 +351,9 @@ func (in *Interp) functionDeclarationInstantiation(cl *Closure, env *Env, args [
 	for _, f := range fns {
 		fo := in.instantiateFunctionDecl(f, lexEnv)
 		b := varEnv.own(f.Kids[0].Op)
-		b.val, b.init = fo, true
+		// SetMutableBinding: a parameter of the same name that is mapped by the arguments object changes with it
+		in.putValue(Ref{kind: rEnv, name: f.Kids[0].Op, b: b}, fo, lexEnv)
+		b.init = true
 	}
 	return lexEnv
 }
